@@ -1,5 +1,7 @@
 """C09 (DESIGN.md section 6/C09): all entry points of one compiled pattern on one input are recorded in one record;
 TLC accepts the record iff it is what spec/API.tla derives from one search function."""
+import json, os
+import vlib
 from checks import apiobs
 
 LEVEL = "model_checking"
@@ -7,17 +9,57 @@ RULE = ("records as in C02 with 4 replacement strings per input drawn from the $
         "$&, ${1}x, $10, ${01}, ${nope}, $ {1}, trailing $, $`, $', $+, $_ ...) x startAt in {-1, one rune offset} x count in {-1,0,1,2}, "
         "and Split for count in {-1,0,1,2,3}. Rules replace.*: Replace = ReplaceWith(first count matches from startAt, Expand(ParseRepl(r))) "
         "for both directions, ReplaceFunc with an evaluator = the same fold; split.*: Split = SplitWith(matches, groups). The match sequence is "
-        "the spec's inside the fragment and the recorded one outside. non-trivial = chains of >= 2 matches")
+        "the spec's inside the fragment and the recorded one outside. F leg (Gen_Repl): EVERY replacement string of length <= 4 (thorough: 5, every 2nd) over the "
+        "scanner's alphabet $ { } 0 1 2 3 n m & ` ' + _ x, predicted by ParseRepl/Expand in six contexts (dense, named, sparse explicit numbers, RightToLeft, RE2, "
+        "ExplicitCapture) and compared with the real Replace (rule replace.language). non-trivial = chains of >= 2 matches / strings containing $")
 STREAM = 400
 QUICK = [("frag", ["-n", "500", "-rtl", "both", "-repl", "4"]), ("wide", ["-n", "600", "-profile", "wide", "-rtl", "both", "-repl", "4"])]
 THOROUGH = [("frag%d" % i, ["-n", "1500", "-rtl", "both", "-repl", "4"]) for i in range(3)] + [("wide%d" % i, ["-n", "2000", "-profile", "wide", "-rtl", "both", "-repl", "4", "-maxlen", "14"]) for i in range(4)]
 PROP = "C09"
 
 
+def gen_repl(ctx, res, maxlen, stride, offset, label):
+    """F leg: TLC enumerates every replacement string <= maxlen over the scanner's alphabet and predicts Replace(input, r, -1, 1)
+    in six contexts (dense / named / sparse numbering, RightToLeft, RE2, ExplicitCapture); the replayer compares with the real Replace"""
+    ctxs = json.loads(ctx.run_vh(["repl-contexts"]).stdout)
+    alpha = [ord(x) for x in "${}0123nm&`'+_x"]
+    params = {"alpha": alpha, "maxlen": maxlen, "stride": stride, "offset": offset,
+              "ctxs": [{k: c[k] for k in ("s", "rtl", "gnums", "names", "nums", "last", "idx", "len", "caps")} for c in ctxs]}
+    ppath = os.path.join(ctx.dir, f"repl-{label}.json")
+    json.dump(params, open(ppath, "w"))
+    out = ctx.tlc("Gen_Repl", "Obs.cfg", env_extra={"VERIF_PARAMS": ppath}, timeout=3000)
+    lines = [l for l in out["raw"].splitlines() if l.startswith('<<"R"')]
+    if not lines:
+        raise vlib.Broken("Gen_Repl predicted nothing")
+    # binding self-test: a prediction with one output changed must be reported
+    first = json.loads(json.loads(lines[0][len('<<"R", '):-2]))
+    first["outs"][0] = first["outs"][0] + [33]
+    gpath = os.path.join(ctx.dir, f"repl-{label}.txt")
+    open(gpath, "w").write("\n".join(['<<"R", ' + json.dumps(json.dumps(first)) + '>>'] + lines) + "\n")
+    d = json.loads(ctx.run_vh(["replay-repl", "-i", gpath]).stdout)
+    os.remove(gpath)
+    if d["strings"] != len(lines) + 1:
+        raise vlib.Broken(f"replayer consumed {d['strings']} of {len(lines) + 1} predictions")
+    mm = d["mismatches"]
+    if not mm or not mm[0]["predicted"].endswith("!"):
+        raise vlib.Broken("binding self-test failed: the replayer accepted a corrupted prediction")
+    ctx.log(f"{label}: replacement strings={d['strings'] - 1} cases={d['cases']} with-dollar={d['nontrivial']} mismatches={len(mm) - 1}")
+    for m in mm[1:]:
+        res.violation(m)
+    res.evaluations += d["cases"]
+    res.nontrivial += d["nontrivial"]
+    res.traces += d["strings"] - 1
+    res.add_sample({"leg": "F " + label, "contexts": [c["pattern"] for c in ctxs], "alphabet": "${}0123nm&`'+_x", "maxlen": maxlen})
+
+
 def run(ctx, res):
     ctx.build()
     res.rule = RULE
     plan = QUICK if ctx.tier == "quick" else THOROUGH
+    if ctx.tier == "quick":
+        gen_repl(ctx, res, 4, 1, 0, "repl4")
+    else:
+        gen_repl(ctx, res, 5, 2, ctx.seed % 2, "repl5")
     for k, (label, args) in enumerate(plan):
         apiobs.obs_api(ctx, res, args + ["-stream", str(STREAM + k)], label, PROP)
     res.assumptions += ["TLC and the CommunityModules Json/IOUtils", "Go standard library unicode tables and UTF-8 decoding (cross-checked against API.tla's decoder on every input)",
